@@ -289,15 +289,29 @@ func c19PurityExprGroup(c *fw.Ctx, calc *calculator.ExpressionCalculator, funcs 
 }
 
 func c19PurityTemplate(c *fw.Ctx, text string, histLen int) {
+	c19PurityTemplateMode(c, text, histLen, 0)
+	// the same with automatic variables on and, handed in after the template was set, a caller-owned map of
+	// defaults that lacks most names of the template: rendering reads it, it does not complete it
+	c19PurityTemplateMode(c, text, histLen, 1)
+}
+
+func c19PurityTemplateMode(c *fw.Ctx, text string, histLen int, mode int) {
 	t := mustache.NewMustacheTemplate()
+	if mode == 1 {
+		t.SetAutoVariables(true)
+	}
 	if err := t.SetTemplate(text); err != nil {
 		c.Outcome("not-compiled")
 		return
 	}
+	partial := map[string]string{"a": "dflt"}
+	if mode == 1 {
+		t.SetDefaultVariables(partial)
+	}
 	maps := []map[string]string{{"a": "v", "B": ""}, {"A": "\"/\\", "b": "w"}, {}}
 	globals := allGlobals()
 	hProg := func() uint64 { return snap.Hash(t.ResultTokens()) }
-	hVars := func() uint64 { return snap.Hash(maps, t.DefaultVariables()) }
+	hVars := func() uint64 { return snap.Hash(maps, t.DefaultVariables(), partial) }
 	hRest := func() uint64 { return snap.Hash(append([]interface{}{t}, globals...)...) }
 	p0, v0, r0 := hProg(), hVars(), hRest()
 	first := map[int]string{}
